@@ -163,6 +163,11 @@ func (r *ccipChainReader) CommitReportsGTETimestamp(
 				consts.ContractNameOnRamp,
 				cciptypes.ChainSelector(mr.SourceChainSelector),
 			)
+			if _, readsSource := r.contractReaders[cciptypes.ChainSelector(mr.SourceChainSelector)]; !readsSource {
+				// This node does not read the source chain and has no onRamp binding for it: keep the onRamp
+				// address the offRamp emitted together with the root instead of failing the whole query.
+				onRampAddress, err = mr.OnRampAddress, nil
+			}
 			if err != nil {
 				return nil, fmt.Errorf("get onRamp address for selector %d: %w", mr.SourceChainSelector, err)
 			}
